@@ -1097,7 +1097,7 @@ impl Template {
     fn build_eq_expr(&self, this: TokenStream, other: TokenStream) -> TokenStream {
         let this = self.apply(this);
         let other = self.apply(other);
-        quote_spanned!(self.span()=> ::core::cmp::PartialEq::eq(&(#this), &(#other)))
+        quote_spanned!(located_at(self.span())=> ::core::cmp::PartialEq::eq(&(#this), &(#other)))
     }
 
     fn build_eq_checker(&self, this: TokenStream) -> TokenStream {
@@ -1107,19 +1107,23 @@ impl Template {
     fn build_partial_cmp_expr(&self, this: TokenStream, other: TokenStream) -> TokenStream {
         let this = self.apply(this);
         let other = self.apply(other);
-        quote_spanned!(self.span()=> ::core::cmp::PartialOrd::partial_cmp(&(#this), &(#other)))
+        quote_spanned!(located_at(self.span())=> ::core::cmp::PartialOrd::partial_cmp(&(#this), &(#other)))
     }
 
     fn build_cmp_expr(&self, this: TokenStream, other: TokenStream) -> TokenStream {
         let this = self.apply(this);
         let other = self.apply(other);
-        quote_spanned!(self.span()=> ::core::cmp::Ord::cmp(&(#this), &(#other)))
+        quote_spanned!(located_at(self.span())=> ::core::cmp::Ord::cmp(&(#this), &(#other)))
     }
 
     fn build_hash_stmt(&self, this: TokenStream) -> TokenStream {
         let this = self.apply(this);
-        quote_spanned!(this.span()=> ::core::hash::Hash::hash(&(#this), __state);)
+        quote_spanned!(located_at(this.span())=> ::core::hash::Hash::hash(&(#this), __state);)
     }
+}
+/// The location of `span` with the name resolution of the rest of the generated code.
+fn located_at(span: Span) -> Span {
+    Span::call_site().located_at(span)
 }
 fn build_to_index_fn(variants: &[VariantEntry]) -> TokenStream {
     let mut arms = Vec::new();
@@ -1138,7 +1142,7 @@ fn build_to_index_fn(variants: &[VariantEntry]) -> TokenStream {
 }
 
 fn build_eq_checker(this: TokenStream) -> TokenStream {
-    quote_spanned!(this.span()=>{
+    quote_spanned!(located_at(this.span())=>{
         fn __assert_eq<__T: ::core::cmp::Eq + ?::core::marker::Sized>(__this: &__T) { }
         __assert_eq(&(#this))
     })
